@@ -16,10 +16,10 @@ ALPHA = "ab/*?."
 RULE = ("(1) every string over {a,b,/,*,?,.} up to length 4 (quick) / 5 (thorough) as a cgroup path under fs roots '/x/cg' and '/x/cg/': "
         "canonical relative/absolute form, getChild(c).getParent()==self for single components, == <=> equal absolute paths => equal "
         "hashes over all pairs up to length 3, and 3000 random derivation histories (hash / getChild / getParent / copy on one object, compared after every step "
-        "with a freshly constructed path: ==, hash, unordered_set lookup and size); (2) hasDescendantWithPrefixMatching for ALL (path, pattern) pairs with both strings up to "
+        "with a freshly constructed path: ==, hash, unordered_set lookup and size), and 1500 pairs whose absolute paths are cut into (cgroup fs, relative path) at different components; (2) hasDescendantWithPrefixMatching for ALL (path, pattern) pairs with both strings up to "
         "length 3 (quick) / 4 (thorough) against an independent recursive matcher (equal / ancestor of a possible match / descendant "
         "of a match, `*` = one whole component); (3) resolveWildcard on random real directory trees (names sharing prefixes, dot-names, "
-        "regular files that match, a sibling directory whose name extends the fs root) against a per-component fnmatch walk; "
+        "regular files that match, a sibling directory whose name extends the fs root, fs roots whose own name contains glob characters, brace alternatives - overlapping ones and ones naming no directory) against a per-component fnmatch walk, result compared as a multiset; "
         "(4) comma-separated cgroup lists. Parts (1),(2) are exhaustive within the stated length and are complemented by 3000 random strings of length 6-14 (paths, equality pairs, pattern pairs). "
         "non-trivial = a query whose reference answer is non-empty/true; distinct by query")
 ASSUMPTIONS = ["patterns containing '.' or '..' components are don't-care for resolution (they are not cgroup names)",
@@ -72,6 +72,16 @@ def judge_paths(v, maxlen, seed=1):
         a = rng.choice(longs)
         b = rng.choice([a, a + "/", "/" + a, a.replace("/", "//"), rng.choice(longs), a[:-1]])
         qs.append({"q": "eq", "fs": "/x/cg", "a": a, "b": b})
+    # the same absolute path cut into (cgroup fs, relative path) at different components: equality and hashing go by the absolute path
+    for _ in range(1500):
+        comps = [rng.choice(["a", "b", "ab", "a.b", "*", "x1"]) for _ in range(rng.randint(1, 5))]
+        i, j = rng.randint(0, len(comps)), rng.randint(0, len(comps))
+        other = rng.random() < 0.3
+        comps2 = list(comps)
+        if other:
+            comps2[rng.randrange(len(comps2))] = "zz"
+        qs.append({"q": "eq", "fs": "/x/cg" + "".join("/" + c for c in comps[:i]), "a": "/".join(comps[i:]),
+                   "fs2": "/x/cg" + "".join("/" + c for c in comps2[:j]), "b": "/".join(comps2[j:])})
     # derivation histories on one object: hash / getChild / getParent / copy in random order
     for _ in range(3000):
         ops = []
@@ -129,8 +139,11 @@ def judge_paths(v, maxlen, seed=1):
                 v.bad("hook-pattern-match", "long", "path %r pattern %r: hasDescendantWithPrefixMatching=%s, reference %s" % (q["path"], q["pattern"], a["m"], not a["m"]))
         else:
             same = P.canon(q["a"]) == P.canon(q["b"])
+            if "fs2" in q:
+                same = P.canon(q["fs"] + "/" + q["a"]) == P.canon(q["fs2"] + "/" + q["b"])
+                v.count("equality_pairs_with_different_root_split")
             if a["eq"] != same or a["ne"] == same or a["abs_eq"] != same or (same and not a["hash_eq"]):
-                v.bad("equality-hash", "", "paths %r vs %r: ==%s !=%s hash_eq=%s; canonical forms %s" % (q["a"], q["b"], a["eq"], a["ne"], a["hash_eq"], "equal" if same else "differ"))
+                v.bad("equality-hash", "root-split" if "fs2" in q else "", "paths %r vs %r: ==%s !=%s hash_eq=%s; canonical forms %s" % ((q["fs"], q["a"]) if "fs2" in q else q["a"], (q["fs2"], q["b"]) if "fs2" in q else q["b"], a["eq"], a["ne"], a["hash_eq"], "equal" if same else "differ"))
     v.count("path_queries", n)
     return n
 
